@@ -450,6 +450,36 @@ def op_bound(state) -> int:
     return bound
 
 
+def fork_state(ctx, nops, seed):
+    """Continue the monitored hand on a deep copy while the original is
+    advanced elsewhere (what a tree search does with states): the monitors
+    follow the copy from here on and must not notice the difference."""
+    from copy import deepcopy
+    original = ctx.state
+    clone = deepcopy(original)
+    ctx.state = clone
+    ctx.counters['forks'] += 1
+    rng = random.Random(seed)
+    pol = gen_policy(rng)
+    key = load.SHUFFLE_KEY[0]
+    try:
+        with warnings.catch_warnings():
+            warnings.simplefilter('ignore')
+            for _ in range(nops):
+                av = available(original)
+                if not av:
+                    break
+                name, args = choose(original, av, rng, pol)
+                getattr(original, name)(*args)
+                ctx.counters['abandoned_branch_operations'] += 1
+    except Exception:       # noqa: BLE001  (the abandoned branch is no oracle)
+        pass
+    finally:
+        load.SHUFFLE_KEY[0] = key
+    ctx.data.setdefault('abandoned', []).append(original)   # keep it alive
+    return clone
+
+
 def play_hand(cfg, pol, monitors, prop=None, max_ops=None):
     """Generate and play one history under the monitors. Returns ctx."""
     rng = random.Random(pol['pseed'])
@@ -469,6 +499,16 @@ def play_hand(cfg, pol, monitors, prop=None, max_ops=None):
                     m.on_decision(ctx, state, avail)
                 if ctx.violations or not avail:
                     break
+                if pol.get('fork_p') and 'forked' not in ctx.data and \
+                        ctx.script and random.Random(
+                            pol['pseed'] * 31 + len(ctx.script)
+                        ).random() < pol['fork_p']:
+                    ctx.data['forked'] = True
+                    fa = [random.Random(pol['pseed'] ^ 0xf0).randint(1, 12),
+                          pol['pseed'] ^ 0xf04c]
+                    ctx.script.append(['__fork__', fa])
+                    state = fork_state(ctx, *fa)
+                    continue
                 name, args = choose(state, avail, rng, pol)
                 com = None
                 if pol.get('commentary') and rng.random() < 0.12:
@@ -506,6 +546,10 @@ def replay_script(cfg, script, monitors, prop=None, stop_at=None):
                 com = entry[2] if len(entry) > 2 else None
                 if stop_at is not None and k >= stop_at:
                     break
+                if name == '__fork__':
+                    ctx.script.append([name, args])
+                    state = fork_state(ctx, *args)
+                    continue
                 avail = available(state)
                 for m in monitors:
                     m.on_decision(ctx, state, avail)
